@@ -28,6 +28,7 @@ import (
 	"regexp"
 	"strings"
 	"sync"
+	"unicode/utf8"
 
 	"github.com/sdcio/yang-parser/xpath/xutils"
 	log "github.com/sirupsen/logrus"
@@ -418,7 +419,7 @@ func stringLength(ctx *context, args []Datum) (retNum Datum) {
 
 	lit0 := args[0].Literal("string-length()")
 
-	return NewNumDatum(float64(len(lit0)))
+	return NewNumDatum(float64(utf8.RuneCountInString(lit0)))
 }
 
 // Returns substring of arg[0] starting with the character at position arg[1],
@@ -432,7 +433,9 @@ func substring(ctx *context, args []Datum) (retLit Datum) {
 	num1 := args[1].Number("substring()")
 	num2 := args[2].Number("substring()")
 
-	substrLen := len(lit0)
+	// Positions count characters, not bytes.
+	chars := []rune(lit0)
+	substrLen := len(chars)
 	if substrLen == 0 {
 		return NewLiteralDatum("")
 	}
@@ -456,7 +459,7 @@ func substring(ctx *context, args []Datum) (retLit Datum) {
 	if endPos > substrLen {
 		endPos = substrLen
 	}
-	substr := lit0[startPos:endPos]
+	substr := string(chars[startPos:endPos])
 	return NewLiteralDatum(substr)
 }
 
